@@ -12,6 +12,7 @@ RULE = ('cases = (a) [Table-Form]/Cubic_Spline_Table_Form: every strictly increa
         'in the same process; (b) TableReader: every file of <= 4 rows of a 4-row pool in every row order x 8 formatting variants '
         '(comments, blanks, tabs, extra columns, CRLF, with/without final newline); (c) plot/plotToFile/plotPotentialObject(ToFile) '
         'x 5x5 ranges x steps in {1,2,3,10,17}; non-trivial = every case (data sets have distinct, non-collinear y values)')
+RULE += '; wrapped xy layouts with 3 / 5 values per line; 257- and 1000-point tables; y values of magnitude 1e-19 and 1e12; reader look-ups in descending / interleaved / outside-then-inside order; numpy-returning callables and numpy bounds for the plot functions; number spellings (.5, 15e-1) in reader files'
 ASSUMPTIONS = [
     'the interpolant of a table form is whatever cubic spline scipy builds: only pass-through, zero outside, xy == x/y and derivative consistency are demanded',
     'derivative consistency: deriv/deriv2 compared with Richardson-extrapolated central differences of the callable itself (tolerance 1e-6 x scale), away from knots',
